@@ -1,4 +1,5 @@
 from .common import *
+from vf import rtc
 
 EXPL = ("C04 is decided by engine A: binary_search_lightness / gradient_descent_oklch return None or a valid colour within the SYMBOLIC tolerance "
         "they were given (loop invariant over all 20 bisection steps; the descent's result follows from its guarded tail with the loop havocked); "
@@ -8,8 +9,49 @@ EXPL = ("C04 is decided by engine A: binary_search_lightness / gradient_descent_
         "Engine E re-evaluates strict_le_5 on the real code with an independent CIEDE2000 oracle (bounded).")
 
 
+def _sched_case(job):
+    """the multi-phase search itself, called twice for one pair with different tolerance schedules (either order): each answer
+    must be the text or within the largest tolerance of the schedule IT was given (oracle CIEDE2000, 0.05 slack)"""
+    t, b, large, first_custom = job
+    from vf import rtc
+    rtc.load_lib()
+    import cm_colors.core.optimisation as opt
+    from oracles import colour as oc
+    out = []
+    scheds = [[1.0], None] if first_custom else [None, [1.0]]
+    for sq in scheds + [[0.8, 2.0]]:
+        try: r = opt.generate_accessible_color(t, b, large, delta_e_sequence=(list(sq) if sq else None))
+        except Exception as e: out.append({'schedule': sq, 'raised': repr(e)}); continue
+        cap = 5.0 if sq is None else max(sq)
+        r = tuple(r)
+        if r != tuple(t):
+            de = oc.ciede2000(oc.FloatK, t, r)
+            if de > cap + 0.05: out.append({'schedule': sq or 'default (<= 5.0)', 'returned': list(r), 'oracle_dE': de, 'cap': cap})
+    return job, out
+
+
+def schedule_E(ck, prog, args=None):
+    import multiprocessing as mp, random, time
+    n = 96 if ck.tier == 'quick' else 3000
+    rng = random.Random(ck.seed + 4)
+    gen = rtc.pair_stream(rng, near_frac=0.5)
+    jobs = [(*next(gen), bool(rng.getrandbits(1)), i % 2 == 0) for i in range(n)]
+    t0 = time.time()
+    with mp.get_context('fork').Pool(16) as pool:
+        res = pool.map(_sched_case, jobs, chunksize=4)
+    bad = [(j, o) for j, o in res if o]
+    ck.bounded.append({'engine': 'E', 'what': 'generate_accessible_color called three times per pair with different tolerance schedules (custom first / default first): each result within the cap of its own schedule (oracle CIEDE2000)',
+                       'evaluations': len(jobs) * 3, 'seed': ck.seed, 'wall_s': round(time.time() - t0, 1), 'bound': f'{len(jobs)} generated pairs x 3 schedules'})
+    ck.evaluations += len(jobs) * 3
+    for j, o in bad[:1]:
+        w = {'call': 'generate_accessible_color(text, bg, large, delta_e_sequence=...) after a call with another schedule', 'text': j[0], 'bg': j[1], 'large': j[2], 'custom_schedule_first': j[3], 'observed': o[0]}
+        for v in ck.violations:
+            if v['engine'] == 'A' and v.get('witness') is None: v['witness'] = w
+        ck.violation('generate_accessible_color/bounded (run-time contract, schedule history)', 'E', o[0], w, {'kind': 'schedule-history'})
+
+
 def run(args):
-    ck = standard_check('C04', args, 'proof', EXPL, CHAIN, ['strict_le_5', 'shape'])
+    ck = standard_check('C04', args, 'proof', EXPL, CHAIN, ['strict_le_5', 'shape'], extra=schedule_E)
     ck.assume('calculate_delta_e_2000(a,b) == DE(a,b) = CIEDE2000 of the two colours, finite, >= 0, 0 for identical colours (check C11, engines B+D+E)',
               'READ(format_color(t,f)) = t (check C06) lifts the bound from the judged colour to the returned value',
               'run-time oracle comparison of DE uses the statement\'s own agreement tolerance (0.05, C11) as slack; the deductive clauses have none')
@@ -17,5 +59,11 @@ def run(args):
 
 
 def replay(args):
+    import json
+    r = json.load(open(args.replay)); w = r.get('concrete_input') or {}
+    if 'custom_schedule_first' in w:
+        j, o = _sched_case((tuple(w['text']), tuple(w['bg']), w['large'], w['custom_schedule_first'])); print('replay', j, '->', o)
+        if o: print(f'VIOLATION property=C04 replay={args.replay}'); return 1
+        return 0
     from .replay import replay_make_readable
     return replay_make_readable('C04', args)
